@@ -58,6 +58,10 @@ type envEvent struct {
 	armed bool
 	fires int
 	live  func() bool
+	// virtual deadline (ns) for timers with a concrete duration: when every goroutine is blocked the
+	// earliest deadline fires first (generous harness timeouts never overtake short library waits)
+	deadline    int64
+	hasDeadline bool
 }
 
 func (t *Thread) tick() {
@@ -208,6 +212,22 @@ func (ex *Exec) pickNext(except *Thread, blocking bool) *Thread {
 			cands = cands[:1]
 			nReg = 1
 		}
+		if ex.hctx["eagerTimers"] != true && len(evs) > 1 {
+			// keep the events without a deadline and, among timed ones, only the earliest
+			var min *envEvent
+			for _, e := range evs {
+				if e.hasDeadline && (min == nil || e.deadline < min.deadline) {
+					min = e
+				}
+			}
+			var kept []*envEvent
+			for _, e := range evs {
+				if !e.hasDeadline || e == min {
+					kept = append(kept, e)
+				}
+			}
+			evs = kept
+		}
 		if nReg > 0 && ex.hctx["eagerTimers"] != true {
 			// time passes only when every goroutine is blocked (harness timeouts are generous);
 			// vTimersEager(true) lets timers race with runnable goroutines
@@ -230,6 +250,9 @@ func (ex *Exec) pickNext(except *Thread, blocking bool) *Thread {
 			return cands[k]
 		}
 		e := evs[k-nReg]
+		if e.hasDeadline && e.deadline > ex.vtime {
+			ex.vtime = e.deadline
+		}
 		e.fire()
 		ex.trace = append(ex.trace, TraceEvent{Kind: "env", Label: e.label})
 		// after firing, somebody (maybe `except`) may have become runnable
@@ -286,7 +309,6 @@ func (ex *Exec) blockUntil(ready func() bool, what string, site ssa.Instruction)
 		if next == cur {
 			break
 		}
-		ex.switches++
 		ex.switchTo(next)
 	}
 }
